@@ -89,6 +89,14 @@ type Pred struct {
 	Src    string
 }
 
+// LockVar ties a mutex field to the ghost variable recording how the current
+// goroutine holds it (0 none, 1 read, 2 write) and to its rank in the lock order.
+type LockVar struct {
+	Prefix string
+	Ghost  string
+	Rank   int
+}
+
 type GhostVar struct {
 	Name string
 	Type string // Go type syntax
@@ -132,11 +140,12 @@ type Spec struct {
 	Lemmas     []*Lemma
 	RawPrelude []string
 	Guards     map[string]string // heap component prefix -> guard name
+	LockVars   map[string]*LockVar // location prefix of a mutex -> ghost variable
 }
 
 func newSpec() *Spec {
 	return &Spec{Contracts: map[string]*Contract{}, Preds: map[string]*Pred{}, GhostVars: map[string]*GhostVar{},
-		GhostFlds: map[string]*GhostField{}, SmtFuns: map[string]*SmtFun{}, Guards: map[string]string{}}
+		GhostFlds: map[string]*GhostField{}, SmtFuns: map[string]*SmtFun{}, Guards: map[string]string{}, LockVars: map[string]*LockVar{}}
 }
 
 var labelRe = regexp.MustCompile(`^\[([^\]]+)\]\s*`)
@@ -218,8 +227,10 @@ func (sp *Spec) loadFile(path, prefix string) error {
 					}
 				}
 			}
-			if _, dup := sp.Contracts[name]; dup {
-				return fmt.Errorf("%s: duplicate contract for %s", src, name)
+			if prev, dup := sp.Contracts[name]; dup {
+				// several blocks for one function are merged (e.g. functional and lock-discipline clauses)
+				cur = prev
+				break
 			}
 			cur = &Contract{Target: name, Kind: word, Loops: map[int]*LoopSpec{}, Src: src, Params: params, Results: results}
 			if word != "func" {
@@ -247,6 +258,12 @@ func (sp *Spec) loadFile(path, prefix string) error {
 		case "atexit":
 			// atexit target var := expr
 			tg, r2 := splitWord(rest)
+			r2 = strings.TrimSpace(r2)
+			if strings.HasPrefix(r2, ":=") {
+				// scalar ghost field: atexit target := expr
+				cur.AtExit = append(cur.AtExit, AtExit{Target: tg, Expr: strings.TrimSpace(r2[2:]), Src: src})
+				break
+			}
 			vr, r3 := splitWord(r2)
 			r3 = strings.TrimSpace(r3)
 			if !strings.HasPrefix(r3, ":=") {
@@ -381,6 +398,14 @@ func (sp *Spec) loadFile(path, prefix string) error {
 			c := parseClause(strings.TrimSpace(r2), src)
 			th, body := splitWord(c.Expr)
 			sp.Lemmas = append(sp.Lemmas, &Lemma{Name: n, Props: c.Props, Theory: th, SMT: strings.TrimSpace(body), Src: src})
+		case "lockvar":
+			// lockvar <mutex location prefix> <ghost var> <rank>
+			f := strings.Fields(rest)
+			if len(f) != 3 {
+				return fmt.Errorf("%s: lockvar <prefix> <ghost> <rank>", src)
+			}
+			rk, _ := strconv.Atoi(f[2])
+			sp.LockVars[f[0]] = &LockVar{Prefix: f[0], Ghost: f[1], Rank: rk}
 		case "guard":
 			// guard <component-prefix> <guardname>
 			n, g := splitWord(rest)
